@@ -206,6 +206,7 @@ def fixed_corpus():
         (e2, 'avg', (f * g,), 'corpus:avg(f*g)'),
         (e2, 'jump', (c * f * g * h,), 'corpus:jump(c*f*g*h)'),
         (e2, 'grad', (h * C.dot(C.grad(G), C.grad(h)),), 'corpus:grad(h*dot(grad G,grad h))'),
+        (e2, 'laplace', (f * F,), 'corpus:laplace(f*F)'),
     ]
 
 
@@ -272,6 +273,8 @@ def check_app(o, rng, env, name, args, res, key):
     if ok is None:
         o.count('undecided')
     elif ok is False:
+        if key is None and name not in IFACE and any(vector_valued_commutative_factor(a, env.dim) for a in args):
+            key = 'corpus:grad(h*dot(grad G,grad h))'    # explained by the open finding C02-vector-commutative-factor
         o.fail(key or ('%s:%d:%s' % (name, env.dim, ' | '.join(str(a) for a in args))),
                '%s(%s) returned %s, which does not denote the same field as the literal expression (dim %d)' % (
                    name, ', '.join(str(a) for a in args), res, env.dim), result=str(res)[:400])
